@@ -12,6 +12,8 @@ import (
 	"os"
 	"path/filepath"
 	"strings"
+	"sync/atomic"
+	"time"
 
 	"github.com/sirupsen/logrus"
 	"github.com/spali/go-rscp/rscp"
@@ -43,7 +45,13 @@ func oneLine(s string) string {
 	return strings.NewReplacer("\n", "\\n", "\r", "\\r").Replace(s)
 }
 
+// lastProgress: when the last case was recorded (or announced); the watchdog in main ends a run that has been silent
+// for twenty minutes - a client that blocks on itself where no bounded wait was foreseen - so that the check reports
+// the announced operation instead of waiting for its own time-out
+var lastProgress atomic.Int64
+
 func (cw *caseWriter) add(op, impl, label, prop string) {
+	lastProgress.Store(time.Now().Unix())
 	op, impl, label, prop = oneLine(op), oneLine(impl), oneLine(label), oneLine(prop)
 	cw.ops.WriteString(op)
 	cw.ops.WriteByte('\n')
@@ -72,6 +80,7 @@ var streams = map[string]func(g *gen, cw *caseWriter, n int, thorough bool){}
 var aboutPath string
 
 func about(op string) {
+	lastProgress.Store(time.Now().Unix())
 	if aboutPath != "" {
 		_ = os.WriteFile(aboutPath, []byte(oneLine(op)), 0o644)
 	}
@@ -91,6 +100,16 @@ func main() {
 		runReplay(*replay, *out)
 		return
 	}
+	lastProgress.Store(time.Now().Unix())
+	go func() {
+		for {
+			time.Sleep(10 * time.Second)
+			if time.Now().Unix()-lastProgress.Load() > 1200 {
+				fmt.Fprintln(os.Stderr, "watchdog: no case recorded for twenty minutes, the stream is blocked")
+				os.Exit(4)
+			}
+		}
+	}()
 	f, ok := streams[*stream]
 	if !ok {
 		fmt.Fprintf(os.Stderr, "unknown stream %q\n", *stream)
